@@ -302,7 +302,10 @@ pub fn gen_history(r: &mut Rng, kind: &'static str, with_time: bool) -> History 
             // exactly above / exactly opposite an aircraft, then its last position report once more
             let fi = r.below(flights.len() as u64) as usize;
             if let Some(m) = flights[fi].last_pos_frame.clone() {
-                let kind = r.below(2) as u8;
+                // "exactly above" is decisive only when the repeated report is the odd one (then the
+                // pairing order is not open to interpretation, DESIGN section 3)
+                let odd = m.len() == 14 && (m[6] >> 2) & 1 == 1;
+                let kind = if odd { r.below(2) as u8 } else { 1 };
                 range = if kind == 0 { *r.pick(&[0.0, 0.0, 1.0]) } else { *r.pick(&[500.0, 20_000.0, 20_020.0, f64::INFINITY]) };
                 ops.push(Op::ReceiverRel { addr: flights[fi].addr, kind, range });
                 ops.push(Op::Frame(m));
@@ -537,6 +540,7 @@ pub fn run_history(g: &Gillham, col: &mut Collector, h: &History, upto: usize) -
                     range = *rg;
                     model.receiver = rx;
                     model.max_range = range;
+                    model.receiver_on = if *kind == 0 { Some(*addr) } else { None };
                     col.count(if *kind == 0 { "receiver_put_on_aircraft" } else { "receiver_put_on_antipode" }, 1);
                 }
                 continue;
@@ -546,6 +550,7 @@ pub fn run_history(g: &Gillham, col: &mut Collector, h: &History, upto: usize) -
                 range = *rg;
                 model.receiver = rx;
                 model.max_range = range;
+                model.receiver_on = None;
                 col.count("receiver_moves", 1);
                 continue;
             }
